@@ -4,12 +4,12 @@ go 1.18
 
 require (
 	github.com/hujm2023/go-sms-protocol v0.0.0
+	github.com/valyala/bytebufferpool v1.0.0
 	golang.org/x/text v0.14.0
 )
 
 require (
 	github.com/samber/lo v1.38.1 // indirect
-	github.com/valyala/bytebufferpool v1.0.0 // indirect
 	golang.org/x/exp v0.0.0-20231110203233-9a3e6036ecaa // indirect
 	golang.org/x/sync v0.5.0 // indirect
 )
